@@ -558,23 +558,70 @@ pub fn generate(rng: &mut Rng, tier: Tier, cases: &mut Vec<Case>) {
     huge_cases(rng, n_huge, cases);
     // (vi) the generic constructor with non-identity capacity closures
     generic_cases(rng, n_generic, cases);
+    // (vii) run_with_upper_bound: bounds around the true flow (F-1, F, F+1), 0, i32::MAX and a random value
+    // in [0, F] (Dinic leaves its phase loop after the first phase whose accumulated flow exceeds the bound)
+    let n_bounded = match tier {
+        Tier::Quick => 4000,
+        Tier::Thorough => 60000,
+    };
+    bounded_cases(rng, n_bounded, cases);
 }
 
-fn parse(c: &Case) -> Option<(usize, usize, Option<usize>, Vec<E>)> {
+fn bounded_cases(rng: &mut Rng, count: usize, cases: &mut Vec<Case>) {
+    cases.push(bounded_case("bounded", 0, 4, &D1_WITNESS, 10));
+    cases.push(bounded_case("bounded", 0, 4, &D1_WITNESS, 9));
+    for i in 0..count {
+        let (s, t, es) = match i % 4 {
+            0 => d1_shaped(rng),
+            1 => layered(rng),
+            2 => {
+                let w = 4 + rng.below(4) as usize;
+                let h = 2 + rng.below(3) as usize;
+                grid(rng, w, h)
+            }
+            _ => random_multi(rng),
+        };
+        let es = in_range(s, t, es);
+        if !in_domain(&es, s, t) {
+            continue;
+        }
+        let f = ref_max_flow(num_nodes(&es), &es, s, t);
+        let b: i64 = match rng.below(8) {
+            0 => f - 1,
+            1 | 2 => f,
+            3 => f + 1,
+            4 => 0,
+            5 => i32::MAX as i64,
+            _ => rng.below(f as u64 + 1) as i64,
+        };
+        let b = b.clamp(0, i32::MAX as i64) as i32;
+        cases.push(bounded_case("bounded", s, t, &es, b));
+    }
+}
+
+fn bounded_case(family: &str, s: usize, t: usize, edges: &[E], bound: i32) -> Case {
+    let mut c = case_from(family, s, t, edges);
+    c.ops.insert(1, format!("ub {bound}"));
+    c
+}
+
+fn parse(c: &Case) -> Option<(usize, usize, Option<usize>, Option<i32>, Vec<E>)> {
     let mut st = None;
     let mut generic = None;
+    let mut ub = None;
     let mut edges = Vec::new();
     for l in &c.ops {
         let t: Vec<&str> = l.split_whitespace().collect();
         match t.first().copied() {
             Some("st") if t.len() == 3 => st = Some((t[1].parse().ok()?, t[2].parse().ok()?)),
             Some("gen") if t.len() == 2 => generic = Some(t[1].parse().ok()?),
+            Some("ub") if t.len() == 2 => ub = Some(t[1].parse().ok()?),
             Some("e") if t.len() == 4 => edges.push((t[1].parse().ok()?, t[2].parse().ok()?, t[3].parse().ok()?)),
             _ => return None,
         }
     }
     let (s, t) = st?;
-    Some((s, t, generic, edges))
+    Some((s, t, generic, ub, edges))
 }
 
 fn bits(b: &bitvec::vec::BitVec) -> String {
@@ -593,6 +640,7 @@ fn observe<S: MaxFlow>(
     with_pre: bool,
     with_assign: bool,
     generic: Option<usize>,
+    bounded: Option<(i32, bool)>, // (initial value of the shared bound, flow/assign lines are free)
     residual: impl Fn(&S) -> Vec<(usize, usize, i32)>,
     obs: &mut Vec<String>,
 ) {
@@ -619,24 +667,32 @@ fn observe<S: MaxFlow>(
         };
         obs.push(format!("D {name} pre={a},{b}"));
     }
-    solver.run();
+    let shared = bounded.map(|(b, _)| std::sync::Arc::new(std::sync::atomic::AtomicI32::new(b)));
+    match &shared {
+        Some(b) => solver.run_with_upper_bound(b.clone()),
+        None => solver.run(),
+    }
+    let cls = if matches!(bounded, Some((_, true))) { "F" } else { "D" };
     match solver.max_flow() {
-        Ok(x) => obs.push(format!("D {name} flow={x}")),
-        Err(_) => obs.push(format!("D {name} flow=ERR")),
+        Ok(x) => obs.push(format!("{cls} {name} flow={x}")),
+        Err(_) => obs.push(format!("{cls} {name} flow=ERR")),
     }
     if with_assign {
         match solver.assignment(s) {
-            Ok(x) => obs.push(format!("D {name} assign={}", bits(&x))),
-            Err(_) => obs.push(format!("D {name} assign=ERR")),
+            Ok(x) => obs.push(format!("{cls} {name} assign={}", bits(&x))),
+            Err(_) => obs.push(format!("{cls} {name} assign=ERR")),
         }
     }
     obs.push(format!("F {name} res={}", triples(&residual(&solver))));
+    if let Some(b) = &shared {
+        obs.push(format!("F {name} bound={}", b.load(std::sync::atomic::Ordering::SeqCst)));
+    }
 }
 
 /// runs the three real solvers; out-of-domain cases (only produced by shrinking) are not executed,
 /// the driver answers `J skip` for them from the ops alone
 pub fn execute(c: &Case, obs: &mut Vec<String>, with_pre: bool, with_assign: bool) {
-    let Some((s, t, generic, edges)) = parse(c) else { return };
+    let Some((s, t, generic, ub, edges)) = parse(c) else { return };
     // the capacities the solvers are supposed to work with
     let caps: Vec<E> = match generic {
         None => edges.clone(),
@@ -652,7 +708,16 @@ pub fn execute(c: &Case, obs: &mut Vec<String>, with_pre: bool, with_assign: boo
         obs.push("D out-of-domain".to_string());
         return;
     }
-    observe::<Dinic>("dinic", &edges, s, t, with_pre, with_assign, generic, |x| x.verif_residual(), obs);
-    observe::<EdmondsKarp>("ek", &edges, s, t, with_pre, with_assign, generic, |x| x.verif_residual(), obs);
-    observe::<FordFulkerson>("ff", &edges, s, t, with_pre, with_assign, generic, |x| x.verif_residual(), obs);
+    // bounded runs: Dinic honours the bound (its lines are free where the bound is below the true maximum
+    // flow: C04's clause), EdmondsKarp and FordFulkerson discard it
+    let (bd, bo) = match ub {
+        Some(b) => {
+            let f = ref_max_flow(num_nodes(&caps), &caps, s, t);
+            (Some((b, (b as i64) < f)), Some((b, false)))
+        }
+        None => (None, None),
+    };
+    observe::<Dinic>("dinic", &edges, s, t, with_pre, with_assign, generic, bd, |x| x.verif_residual(), obs);
+    observe::<EdmondsKarp>("ek", &edges, s, t, with_pre, with_assign, generic, bo, |x| x.verif_residual(), obs);
+    observe::<FordFulkerson>("ff", &edges, s, t, with_pre, with_assign, generic, bo, |x| x.verif_residual(), obs);
 }
